@@ -109,6 +109,9 @@ type Spec struct {
 	ChunkChoices []int `json:"chunk_choices,omitempty"`
 	// Write extra unreferenced files, tmp files.
 	ExtraFiles bool `json:"extra_files"`
+	// Percentage of file outputs that are relative symlinks to an input file
+	// of the job (only used with VDR off: martian does not track such links).
+	PassThroughPct int `json:"pass_through_pct,omitempty"`
 	// Side directory for files created outside the pipestance.
 	OutsideDir string `json:"outside_dir,omitempty"`
 	// Arrays produced have distinct elements by construction.
